@@ -32,6 +32,7 @@ def run(chk, repo, tier):
     chk.clause('C18-d', 'dark frame without FPN equals floor(rate); rule07 forwards its arguments', 2)
     chk.clause('C18-e', 'surface error: mask factor, RMS algebra, array shapes agree for non-square masks', 3)
     chk.clause('C18-f', 'cosmic-ray frame has the requested shape and is non-negative', 2)
+    chk.clause('C18-h', 'Gaussian shot noise refuses negative and unrepresentably large signals as the Poisson branch does', 2)
     chk.clause('C18-g', 'shot-noise parameters: Poisson rate = signal; Gaussian loc = signal, scale = sqrt(signal)', 2)
     chk.not_decided += ['different seeds give different draws', 'moments of the draws', 'finiteness']
 
@@ -83,6 +84,7 @@ def run(chk, repo, tier):
         if len(sn) == 1 and not ns and isinstance(p.ret, Poly):
             det = 'standard_normal form'
     chk.ob('C18-g', 'D-provenance', f.key, 'Gaussian approximation: loc = signal, scale = sqrt(signal)', okg, det, f.loc())
+    gaussian_refusal_rule(chk, repo, 'C18-h', paths)
 
     # ---------------------------------------------------------------- C18-c
     f, paths, _ = analyse(repo, 'detector.read_noise')
@@ -211,3 +213,47 @@ def _ps_path(chk, f, p):
     chk.ob('C18-e', 'U-shape', f.key, 'noise, filter and mask share the (rows, cols) axes', ok,
            '; '.join(sorted(set(sh.clashes))[:2]) or f'shape {tuple(map(fmt, s)) if s is not None else "unknown"}', f.loc(p.node))
 
+
+
+def gaussian_refusal_rule(chk, repo, clause, paths):
+    """The Gaussian branch draws normal(img, sqrt(img)) and casts to int: a negative pixel makes the scale NaN and the cast
+    turns NaN (and anything beyond the integer range) into -2**63 without complaint, so the refusal has to be a test of
+    the signal itself on the way to the draw (or an error state that makes the invalid square root raise)."""
+    f = repo.func('detector.shot_noise')
+
+    def tests(p, what):
+        """polarity of a path condition that compares the smallest / largest signal (or any / all of a comparison)"""
+        out = []
+        for c, pol in literals(p.conds):
+            a = c.single_atom() if isinstance(c, Poly) else None
+            if a is None or a[0] != 'app':
+                continue
+            inner = [x for x in nf.value_atoms(c) if is_app(x, ('amin', 'amax', 'any', 'all', 'min', 'max', 'nanmin', 'nanmax'))]
+            if not inner or ('sym', 'img') not in nf.value_atoms(c):
+                continue
+            txt = fmt(c)
+            if what == 'neg' and ('amin' in txt or 'min(' in txt or ('lt(img, 0)' in txt) or 'le(0, img)' in txt):
+                out.append(pol)
+            if what == 'big' and ('amax' in txt or 'max(' in txt or 'lt(' in txt and 'img)' in txt and 'e+18' in txt):
+                out.append(pol)
+        return out
+    from ..rules import literals
+    draws = [p for p in returns(paths) if draw_atoms(p.ret, 'm:normal') or draw_atoms(p.ret, 'm:standard_normal')]
+    raises = [p for p in paths if p.status == 'raise' and p.exc == 'ValueError']
+    strict_state = False
+    for p in draws:
+        for e in p.events:
+            if e.kind == 'call' and e.data.get('callee') == 'ext:numpy.errstate':
+                kws = {k: repr(v) for k, v in (e.data.get('kwargs') or {}).items()}
+                if 'raise' in kws.get('invalid', '') or 'raise' in kws.get('all', ''):
+                    strict_state = True
+    for what, label, why in (('neg', 'negative signal -> ValueError',
+                              'sqrt of a negative pixel is an invalid-value condition, which errstate(divide=...) does not raise on: '
+                              'the scale is NaN, the draw NaN and the cast to int returns -9.2e18 for that pixel'),
+                             ('big', 'unrepresentably large signal -> ValueError',
+                              'a draw beyond the integer range is cast to -9.2e18 without complaint')):
+        guarded = bool(draws) and all(tests(p, what) for p in draws)
+        refused = any(tests(p, what) for p in raises)
+        ok = (guarded and refused) or (what == 'neg' and strict_state and bool(raises))
+        chk.ob(clause, 'D-refusal', f.key, f'Gaussian method: {label}', ok if draws else None,
+               'tested on the way to the draw' if ok else f'no test of the signal stands between the argument and the draw: {why}', f.loc())
